@@ -48,6 +48,28 @@ check_c02(const dc_result_t *R, const rv_result *V, int T, const char *cd, const
     return 0;
 }
 
+/* the senone sequence a phone of an aligned word must use, from the model definition alone: cross-word contexts
+ * are the last phone of the word before and the first phone of the word after in the alignment (silence at the
+ * utterance boundaries), within-word contexts are the neighbouring phones of the pronunciation */
+static int
+c04_expected_ssid(int32 const *wids, int nw, int wi, int pj)
+{
+    dict_t *dict = D->dict;
+    bin_mdef_t *m = D->acmod->mdef;
+    int wid = wids[wi], len = dict_pronlen(dict, wid), sil = bin_mdef_silphone(m);
+    int lc = wi > 0 ? dict_last_phone(dict, wids[wi - 1]) : sil, rc = wi + 1 < nw ? dict_first_phone(dict, wids[wi + 1]) : sil;
+    int b = dict_pron(dict, wid, pj), pid;
+    if (len == 1)
+        pid = bin_mdef_phone_id_nearest(m, b, lc, rc, WORD_POSN_SINGLE);
+    else if (pj == 0)
+        pid = bin_mdef_phone_id_nearest(m, b, lc, dict_pron(dict, wid, 1), WORD_POSN_BEGIN);
+    else if (pj == len - 1)
+        pid = bin_mdef_phone_id_nearest(m, b, dict_pron(dict, wid, pj - 1), rc, WORD_POSN_END);
+    else
+        pid = bin_mdef_phone_id_nearest(m, b, dict_pron(dict, wid, pj - 1), dict_pron(dict, wid, pj + 1), WORD_POSN_INTERNAL);
+    return bin_mdef_pid2ssid(m, pid);
+}
+
 /* ---------- C04: alignment hierarchy ---------- */
 static int
 check_c04(const dc_result_t *R, int T, const char *cd, const char *when)
@@ -55,7 +77,8 @@ check_c04(const dc_result_t *R, int T, const char *cd, const char *when)
     alignment_t *al = decoder_alignment(D), *al2;
     alignment_iter_t *w, *p, *s;
     char rs[1500];
-    int wi = 0, next_frame = 0, i, last_ef = -1;
+    int wi = 0, next_frame = 0, i, last_ef = -1, nwids = 0;
+    int32 wids[256];
     const char *early = "";
     dc_result_str(R, rs, sizeof rs);
     /* with pruning the first pass may fall back to a result that ends before the last frame searched */
@@ -83,6 +106,10 @@ check_c04(const dc_result_t *R, int T, const char *cd, const char *when)
         return 0;
     }
     mc_count(4, 1);
+    /* the aligned word sequence, for the context-dependent model each phone must use */
+    for (w = alignment_words(al); w; w = alignment_iter_next(w))
+        if (nwids < 256)
+            wids[nwids++] = dict_wordid(D->dict, alignment_iter_name(w));
     /* words must be the dictionary words of the first-pass segmentation */
     i = 0;
     for (w = alignment_words(al); w; w = alignment_iter_next(w), wi++) {
@@ -130,6 +157,15 @@ check_c04(const dc_result_t *R, int T, const char *cd, const char *when)
                 return -1;
             }
             pnext = ps + pd;
+            if (wi < nwids && wids[wi] >= 0 && pi < dict_pronlen(D->dict, wids[wi])
+                && alignment_iter_get(p)->id.pid.ssid != c04_expected_ssid(wids, nwids, wi, pi)) {
+                mc_viol("C04/phone-model-is-not-the-phones-model-in-context", cd,
+                        "%s: word %d (%s) phone %d (%s) is aligned with senone sequence %d, the model definition gives %d for its context; %s", when, wi, wname, pi,
+                        pname, alignment_iter_get(p)->id.pid.ssid, c04_expected_ssid(wids, nwids, wi, pi), rs);
+                alignment_iter_free(p);
+                alignment_iter_free(w);
+                return -1;
+            }
             ci = bin_mdef_ciphone_id(D->acmod->mdef, pname);
             tm = bin_mdef_pid2tmatid(D->acmod->mdef, ci);
             for (s = alignment_iter_children(p); s; s = alignment_iter_next(s), si++) {
